@@ -34,6 +34,53 @@ NEWTON = 1e-14   # the source's eps: a-priori bound on the last Newton step
 
 
 # ------------------------------------------------------------------ generator
+DBL_MAX = 1.7976931348623157e308
+# geometric ladder of decimal scales: the whole normal range, dense where |b-a| passes the unit roundoff and the
+# magnitudes at which absolute tolerances (epsilon, 1e-12, 1e-30, DBL_MIN) would start to bite
+SCALE_EXPS = [-305, -300, -280, -250, -200, -160, -120, -80, -60, -40, -30, -25, -22, -20, -19, -18, -17, -16, -15, -14, -13, -12,
+              10, 12, 15, 16, 17, 20, 30, 40, 80, 120, 160, 200, 250, 280, 300]
+
+
+def _scale(rng):
+    return 10.0 ** (rng.choice(SCALE_EXPS) + rng.uniform(-1, 1))
+
+
+def _shape(rng, s):
+    """an interval of size ~ s (length >= 1e-4 of its magnitude) in one of the positions relative to the origin"""
+    shape = rng.choice(["from-zero", "to-zero", "symmetric", "straddle", "offset", "offset-neg", "far"])
+    if shape == "from-zero": a, b = 0.0, s * rng.uniform(0.5, 2)
+    elif shape == "to-zero": a, b = -s * rng.uniform(0.5, 2), 0.0
+    elif shape == "symmetric": a, b = -s, s
+    elif shape == "straddle": a, b = -s * 10 ** rng.uniform(-2, 0), s * 10 ** rng.uniform(-2, 0)
+    elif shape == "offset": a = s * rng.uniform(0.5, 2); b = a * rng.uniform(1.5, 4)
+    elif shape == "offset-neg": b = -s * rng.uniform(0.5, 2); a = b * rng.uniform(1.5, 4)
+    else:
+        c = rng.choice([-1, 1]) * s; w = s * 10 ** rng.uniform(-3.5, -1); a, b = c - w / 2, c + w / 2
+    return a, b
+
+
+def _ulps(x, k):
+    """the double k ulps above x >= 0 (bit pattern + k: runs through the subnormals from 0)"""
+    import struct
+    (i,) = struct.unpack("<q", struct.pack("<d", x))
+    return struct.unpack("<d", struct.pack("<q", i + k))[0]
+
+
+def _near_equal(rng):
+    """legitimate intervals a < b whose end points nearly coincide: k ulps apart (k on a ladder 1 .. 1e6) or at a relative
+    distance 1e-16 .. 1e-6, at every magnitude (0, subnormal, |x| < 1, 1, huge); both signs"""
+    r = rng.random()
+    if r < 0.15: x = rng.choice([0.0, 5e-324, 1e-310, 2.2250738585072014e-308])
+    elif r < 0.45: x = rng.choice([1.0, 0.5, 0.1, 0.75, 1e-3, 2.0, 1.0 / 3.0, 7.0, 1e-8]) * rng.choice([1.0, rng.uniform(0.5, 2.0)])
+    else: x = 10.0 ** rng.uniform(-300, 300)
+    if rng.random() < 0.6 or x == 0.0:
+        y = _ulps(x, rng.choice([1, 1, 2, 3, 4, 7, 10, 100, 1000, 10 ** 4, 10 ** 5, 10 ** 6]))
+    else:
+        y = x * (1.0 + 10.0 ** rng.uniform(-16, -6))
+        if y == x: y = _ulps(x, 1)
+    return (x, y) if rng.random() < 0.5 else (-y, -x)
+
+
 def _interval(rng, kind):
     if kind == "unit": a, b = -1.0, 1.0
     elif kind == "zero-one": a, b = 0.0, 1.0
@@ -48,6 +95,17 @@ def _interval(rng, kind):
         a, b = c - w / 2, c + w / 2
     elif kind == "tiny":
         s = 10 ** rng.uniform(-12, -6); a, b = s, s * rng.uniform(1.5, 4)
+    elif kind == "scaled":          # every position relative to the origin at every magnitude of the normal range
+        a, b = _shape(rng, _scale(rng))
+    elif kind == "subnormal":       # lengths of 2e6 .. 6e15 subnormal quanta (end points subnormal or just above)
+        a, b = _shape(rng, 10.0 ** rng.uniform(-317, -307.5))
+    elif kind == "huge-edge":       # representable end points and length, up to DBL_MAX (a+b or b-a may exceed DBL_MAX)
+        r = rng.random()
+        if r < 0.3: a, b = DBL_MAX * rng.uniform(0.3, 0.6), DBL_MAX * rng.uniform(0.7, 1.0)          # a+b overflows, b-a does not
+        elif r < 0.5: a, b = -DBL_MAX * rng.uniform(0.7, 1.0), -DBL_MAX * rng.uniform(0.3, 0.6)
+        elif r < 0.7: a, b = -DBL_MAX * rng.uniform(0.1, 0.49), DBL_MAX * rng.uniform(0.1, 0.49)      # nothing overflows
+        elif r < 0.85: a, b = rng.choice([(0.0, DBL_MAX), (-DBL_MAX, 0.0), (0.0, DBL_MAX * rng.uniform(0.5, 1))])
+        else: a, b = DBL_MAX * rng.uniform(0.1, 0.24), DBL_MAX * rng.uniform(0.3, 0.49)
     else:
         raise ValueError(kind)
     return a, b
@@ -56,12 +114,52 @@ def _interval(rng, kind):
 KINDS = ["unit", "zero-one", "generic", "straddle", "far", "tiny"]
 
 
-def _poly_fexpr(cs):
-    """Horner form c0 + x*(c1 + x*(...)) as a prefix expression"""
-    e = f"c {hx(cs[-1])}"
+def _unit_exp(a, b):
+    """e with 2^e <= max(|a|,|b|) < 2^(e+1) (2^e is a double for every finite non-zero magnitude)"""
+    M = max(abs(a), abs(b))
+    return math.frexp(M)[1] - 1 if M > 0.0 else 0
+
+
+def _poly_fexpr(cs, e=0):
+    """Horner form c0 + u*(c1 + u*(...)) in u = x / 2^e (an exact operation) as a prefix expression"""
+    u = "x" if e == 0 else f"/ x c {hx(math.ldexp(1.0, e))}"
+    ex = f"c {hx(cs[-1])}"
     for c in reversed(cs[:-1]):
-        e = f"+ c {hx(c)} * x {e}"
-    return e
+        ex = f"+ c {hx(c)} * {u} {ex}"
+    return ex
+
+
+def _smooth_fexpr(rng, a, b):
+    """a smooth integrand varying on the scale of the interval: g((x - c)/d), d = |b-a| * 10^(-1..1)"""
+    d = abs(b - a) * 10 ** rng.uniform(-1, 1)
+    if not (d > 0.0) or math.isinf(d): d = max(abs(a), abs(b), 5e-324)
+    c = 0.5 * a + 0.5 * b
+    arg = f"/ - x c {hx(c)} c {hx(d)}"
+    return rng.choice([f"sin {arg}", f"cos {arg}", f"exp neg * {arg} {arg}", f"/ c 0x1p+0 + c 0x1p+0 * {arg} {arg}", f"tanh {arg}", f"abs {arg}"])
+
+
+def _int_poly_case(rng, n, a, b, tags):
+    """the three overloads on a polynomial of degree <= min(2n-1, 12) with O(1) coefficients in u = x/2^e, 1 <= max|u| < 2"""
+    e = _unit_exp(a, b)
+    deg = rng.randint(0, min(2 * n - 1, 12))
+    co = [rng.choice([0.0, 1.0, -1.0, rng.uniform(-3, 3)]) / 2.0 ** k for k in range(deg + 1)]
+    if co[-1] == 0.0: co[-1] = 1.0 / 2.0 ** deg
+    F = sum(abs(c) * 2.0 ** k for k, c in enumerate(co))
+    return Case(f"int {n} {hx(a)} {hx(b)} {_poly_fexpr(co, e)}", tags, tol=(1e-12, 1e-13 * abs(0.5 * b - 0.5 * a) * 2 * F), info={"poly": co, "e": e})
+
+
+def _rule_case(rng, n, kind, extra=()):
+    a, b = _interval(rng, kind)
+    tags = ["rule", kind, "odd" if n % 2 else "even", "n<=40" if n <= 40 else ("n<=512" if n <= 512 else "n>512")] + list(extra)
+    r = rng.random()
+    M = max(abs(a), abs(b))
+    tol = (1e-13, 1e-15 * M)
+    if r < 0.25: return Case(f"rule {n} {hx(b)} {hx(a)}", tags + ["reversed"], tol=tol)
+    if r < 0.45: return Case(f"pair {n} {hx(a)} {hx(b)}", tags + ["pair"], tol=tol)
+    return Case(f"rule {n} {hx(a)} {hx(b)}", tags, tol=tol)
+
+
+INT_NS = [1, 2, 3, 4, 5, 6, 7, 8, 9, 10, 15, 16, 30, 31, 64]
 
 
 def generate(rng, tier):
@@ -79,42 +177,52 @@ def generate(rng, tier):
         kinds = [KINDS[(n + j) % len(KINDS)] for j in range(k)]
         if n <= 8 and "unit" not in kinds: kinds.append("unit")
         for kind in kinds:
-            a, b = _interval(rng, kind)
-            tags = ["rule", kind, "odd" if n % 2 else "even", "n<=40" if n <= 40 else ("n<=512" if n <= 512 else "n>512")]
-            r = rng.random()
-            M = max(abs(a), abs(b))
-            tol = (1e-13, 1e-15 * M)
-            if r < 0.25:
-                cs.append(Case(f"rule {n} {hx(b)} {hx(a)}", tags + ["reversed"], tol=tol))
-            elif r < 0.45:
-                cs.append(Case(f"pair {n} {hx(a)} {hx(b)}", tags + ["pair"], tol=tol))
-            else:
-                cs.append(Case(f"rule {n} {hx(a)} {hx(b)}", tags, tol=tol))
+            cs.append(_rule_case(rng, n, kind))
+        # every magnitude of the normal range, every position relative to the origin
+        for _ in range(2 if (big or n <= 16) else 1):
+            cs.append(_rule_case(rng, n, "scaled"))
+        # subnormal end points / lengths (node spacing ~ 6|b-a|/n^2 must stay many quanta: n <= 64 only) and the top of the range
+        if n <= 64 and (big or n <= 8 or n % 4 == 0 or rng.random() < 0.25):
+            cs.append(_rule_case(rng, n, "subnormal"))
+        if n <= 8 or rng.random() < (0.3 if big else 0.1):
+            cs.append(_rule_case(rng, n, "huge-edge"))
         if n <= 64 or rng.random() < 0.1:
             cs.append(Case(f"rule_default {n}", ("rule_default", "odd" if n % 2 else "even"), tol=(1e-13, 1e-15)))
     cs.append(Case("rule 0 -0x1p+0 0x1p+0", ("rule", "n=0")))
     # ---- the three overloads on the same request
     for _ in range(1500 if big else 250):
-        n = rng.choice([1, 2, 3, 4, 5, 6, 7, 8, 9, 10, 15, 16, 30, 31, 64, rng.randint(1, 200)])
-        a, b = _interval(rng, rng.choice(["unit", "zero-one", "generic", "straddle", "far"]))
+        n = rng.choice(INT_NS + [rng.randint(1, 200)])
+        kind = rng.choice(["unit", "zero-one", "generic", "straddle", "far"])
+        a, b = _interval(rng, kind)
         if rng.random() < 0.25: a, b = b, a
-        M = max(abs(a), abs(b))
         if rng.random() < 0.6:
-            deg = rng.randint(0, min(2 * n - 1, 12))
-            co = [rng.choice([0.0, 1.0, -1.0, rng.uniform(-3, 3)]) / max(M, 1e-3) ** k for k in range(deg + 1)]
-            if co[-1] == 0.0: co[-1] = 1.0 / max(M, 1e-3) ** deg
-            F = sum(abs(c) * M ** k for k, c in enumerate(co))
-            cs.append(Case(f"int {n} {hx(a)} {hx(b)} {_poly_fexpr(co)}", ("int", "poly"), tol=(1e-12, 1e-13 * abs(b - a) * F), info={"poly": co}))
+            cs.append(_int_poly_case(rng, n, a, b, ("int", "poly", kind)))
         else:
-            s = 10 ** rng.uniform(-1, 1) / max(abs(b - a), 1e-300); c = 0.5 * (a + b)
-            arg = f"* c {hx(s)} - x c {hx(c)}"
-            e = rng.choice([f"sin {arg}", f"cos {arg}", f"exp neg * {arg} {arg}", f"/ c 0x1p+0 + c 0x1p+0 * {arg} {arg}", f"tanh {arg}", f"abs {arg}"])
-            cs.append(Case(f"int {n} {hx(a)} {hx(b)} {e}", ("int", "smooth"), tol=(1e-12, 1e-13 * abs(b - a))))
-    for _ in range(200 if big else 40):
-        a, b = _interval(rng, rng.choice(["unit", "generic", "straddle"]))
-        s = 10 ** rng.uniform(-1, 1) / abs(b - a); c = 0.5 * (a + b)
-        arg = f"* c {hx(s)} - x c {hx(c)}"
-        cs.append(Case(f"int_default {hx(a)} {hx(b)} {rng.choice(['sin', 'cos', 'tanh', 'exp'])} {arg}", ("int_default",), tol=(1e-12, 1e-13 * abs(b - a) * 3)))
+            cs.append(Case(f"int {n} {hx(a)} {hx(b)} {_smooth_fexpr(rng, a, b)}", ("int", "smooth", kind), tol=(1e-12, 1e-13 * abs(b - a))))
+    # the same at every magnitude (scale ladder, subnormal lengths, top of the range) ...
+    for _ in range(2400 if big else 400):
+        n = rng.choice(INT_NS + [rng.randint(1, 100)])
+        kind = rng.choice(["scaled", "scaled", "scaled", "tiny", "subnormal", "huge-edge"])
+        a, b = _interval(rng, kind)
+        if rng.random() < 0.25: a, b = b, a
+        if rng.random() < 0.7:
+            cs.append(_int_poly_case(rng, n, a, b, ("int", "poly", kind)))
+        else:
+            cs.append(Case(f"int {n} {hx(a)} {hx(b)} {_smooth_fexpr(rng, a, b)}", ("int", "smooth", kind), tol=(1e-12, 1e-13 * abs(0.5 * b - 0.5 * a) * 2)))
+    # ... and on intervals whose end points nearly coincide (1 .. 1e6 ulps, relative distance 1e-16 .. 1e-6), and a == b
+    for _ in range(1800 if big else 300):
+        n = rng.choice(INT_NS + [rng.randint(1, 100)])
+        a, b = _near_equal(rng)
+        r = rng.random()
+        if r < 0.25: a, b = b, a
+        elif r < 0.29: b = a
+        cs.append(_int_poly_case(rng, n, a, b, ("int", "poly", "near-equal" if a != b else "a==b")))
+    for _ in range(300 if big else 60):
+        kind = rng.choice(["unit", "generic", "straddle", "scaled", "scaled", "subnormal"])
+        a, b = _interval(rng, kind)
+        if rng.random() < 0.2: a, b = _near_equal(rng); kind = "near-equal"
+        if rng.random() < 0.2: a, b = b, a
+        cs.append(Case(f"int_default {hx(a)} {hx(b)} {_smooth_fexpr(rng, a, b)}", ("int_default", kind), tol=(1e-12, 1e-13 * abs(b - a) * 3)))
     # ---- size guard of the value overload
     for _ in range(600 if big else 120):
         n = rng.choice([1, 2, 3, 4, 5, 8, 9, 16, 33])
@@ -134,6 +242,14 @@ def generate(rng, tier):
                 cs.append(Case(f"values_rows {flist(vals)} {tab}", ("values_rows", tag), tol=(1e-12, 1e-13 * n)))
             else:
                 cs.append(Case(f"fun_rows {tab} {rng.choice(['x', '* x x', 'cos x', 'c 0x1p+0'])}", ("fun_rows", "badrow" if bad else "wellformed"), tol=(1e-12, 1e-13 * n)))
+    # ---- unit values on a computed rule: sum of the weights = b-a at every magnitude and for nearly coinciding end points
+    for _ in range(900 if big else 150):
+        n = rng.choice(INT_NS + [rng.randint(1, 100)])
+        if rng.random() < 0.4: a, b = _near_equal(rng); kind = "near-equal"
+        else:
+            kind = rng.choice(["scaled", "scaled", "subnormal", "huge-edge", "far"]); a, b = _interval(rng, kind)
+        if rng.random() < 0.25: a, b = b, a
+        cs.append(Case(f"values {n} {hx(a)} {hx(b)} {flist([1.0] * n)}", ("values", "unit-values", kind), tol=(1e-12, 1e-13 * abs(0.5 * b - 0.5 * a) * 2)))
     return cs
 
 
@@ -190,8 +306,38 @@ def _exact_moments(xs, ws, kmax):
     return out
 
 
+SUBQ = 2.0 ** -1074   # the subnormal quantum: absolute rounding error of a result below DBL_MIN (a-priori, like EPS)
+
+
+def _units(a, b):
+    """(e, q): magnitudes outside 2^-100 .. 2^100 are evaluated in units of 2^e (an exact rescaling of the produced doubles: every
+    clause is homogeneous), e = exponent of max(|a|,|b|); q = the subnormal quantum in these units (0 when no result can be subnormal)"""
+    M = max(abs(a), abs(b))
+    if M == 0.0 or math.isinf(M) or math.isnan(M): return 0, 0.0
+    e = math.frexp(M)[1]
+    if -100 <= e <= 100: return 0, 0.0
+    return e, (math.ldexp(1.0, -1074 - e) if e < -900 else 0.0)
+
+
+def _region(a, b):
+    """suffix of the signature for requests whose end points are doubles but whose a+b or b-a is not"""
+    if math.isinf(a) or math.isinf(b) or math.isnan(a) or math.isnan(b): return ""
+    if math.isinf(a + b): return ":sum-of-limits-overflows"
+    if math.isinf(b - a): return ":length-overflows"
+    return ""
+
+
 def _rule_predicates(tag, n, a, b, xs, ws, full=True):
-    """the clauses of the property on one produced rule; orientation s = sign(b-a)"""
+    e, q = _units(a, b)
+    if e == 0: return _rule_predicates_u(tag, n, a, b, xs, ws, full)
+    sc = lambda x: math.ldexp(x, -e) if isinstance(x, float) else x
+    reg = _region(a, b)
+    out = _rule_predicates_u(tag, n, sc(a), sc(b), [sc(x) for x in xs], [sc(w) for w in ws], full, q)
+    return [(sig + reg, msg + f" [numbers in units of 2^{e}: a = {a!r}, b = {b!r}]") for sig, msg in out]
+
+
+def _rule_predicates_u(tag, n, a, b, xs, ws, full=True, q=0.0):
+    """the clauses of the property on one produced rule; orientation s = sign(b-a); q = absolute rounding quantum (subnormal results)"""
     out = []
     if len(xs) != n or len(ws) != n:
         return [(f"{tag}:count", f"rule of order {n} has {len(xs)} nodes and {len(ws)} weights")]
@@ -204,7 +350,7 @@ def _rule_predicates(tag, n, a, b, xs, ws, full=True):
     if any(not (lo < x < hi) for x in xs):
         out.append((f"{tag}:inside", f"n={n} [{a!r},{b!r}]: a node is not strictly inside the interval (min {min(xs)!r}, max {max(xs)!r})"))
     # symmetry about the midpoint: construction gives xm -/+ hw*z with the same z; 2 roundings per node, 2 for xm, 2 for this sum
-    sl = 8 * EPS * M
+    sl = 8 * EPS * M + 4 * q
     for i in range(n // 2):
         if abs((xs[i] + xs[n - 1 - i]) - (a + b)) > sl:
             out.append((f"{tag}:nodes-symmetric", f"n={n} [{a!r},{b!r}]: node {i} + node {n-1-i} = {xs[i] + xs[n-1-i]!r}, a+b = {a+b!r}")); break
@@ -221,11 +367,11 @@ def _rule_predicates(tag, n, a, b, xs, ws, full=True):
         out.append((f"{tag}:weights-symmetric", f"n={n} [{a!r},{b!r}]: weights are not symmetric"))
     if out: return out          # exactness is meaningless on a malformed rule; report the structural failure
     hw = 0.5 * (b - a); xm = 0.5 * (b + a)
-    dt = NEWTON + 2 * EPS * M / abs(hw)
-    Wn = W(n)
+    dt = NEWTON + 2 * EPS * M / abs(hw) + 2 * q / abs(hw)
+    Wn = W(n); qn = (n + 2) * q      # each weight and each product is rounded once to the quantum
     sw = math.fsum(ws)
-    if abs(sw - (b - a)) > L * (Wn + 2 * EPS):
-        out.append((f"{tag}:sum", f"n={n} [{a!r},{b!r}]: weights sum to {sw!r}, b-a = {b-a!r} (slack {L*(Wn+2*EPS):.3g})"))
+    if abs(sw - (b - a)) > L * (Wn + 2 * EPS) + qn:
+        out.append((f"{tag}:sum", f"n={n} [{a!r},{b!r}]: weights sum to {sw!r}, b-a = {b-a!r} (slack {L*(Wn+2*EPS)+qn:.3g})"))
     if not full: return out
     kmax = min(2 * n - 1, 60)
     # monomials x^k against (b^(k+1) - a^(k+1))/(k+1)
@@ -235,7 +381,7 @@ def _rule_predicates(tag, n, a, b, xs, ws, full=True):
         for k in range(kmax + 1):
             ref = (fb ** (k + 1) - fa ** (k + 1)) / (k + 1)
             rel = Wn + k * dt * abs(hw) / M
-            if abs(mom[k] - ref) > Fraction(L) * fM ** k * Fraction(rel):
+            if abs(mom[k] - ref) > (Fraction(L) * Fraction(rel) + Fraction(qn)) * fM ** k:
                 out.append((f"{tag}:exact-monomial", f"n={n} [{a!r},{b!r}]: sum w_i x_i^{k} = integral*(1{float((mom[k] - ref) / ref):+.3g}), integral = {float(ref)!r} (exact arithmetic; allowed {rel:.3g}*|b-a|*max|x|^k)")); break
     else:
         # monomials scaled to (x/M)^k so that no power over- or underflows
@@ -244,7 +390,7 @@ def _rule_predicates(tag, n, a, b, xs, ws, full=True):
         for k in range(kmax + 1):
             got = math.fsum(P)
             ref = float((fb ** (k + 1) - fa ** (k + 1)) / (k + 1) / fM ** k)
-            slack = L * (Wn + k * dt * abs(hw) / M + (2 * k + 2) * EPS)
+            slack = L * (Wn + k * dt * abs(hw) / M + (2 * k + 2) * EPS) + qn
             if not (abs(got - ref) <= slack):
                 out.append((f"{tag}:exact-monomial", f"n={n} [{a!r},{b!r}]: sum w_i (x_i/M)^{k} = {got!r}, integral = {ref!r} (M = {M!r}, slack {slack:.3g})")); break
             P = [p * u for p, u in zip(P, us)]
@@ -253,7 +399,7 @@ def _rule_predicates(tag, n, a, b, xs, ws, full=True):
     p0 = [1.0] * n; p1 = list(ts)
     for k in range(1, kmax + 1):
         got = math.fsum(w * p for w, p in zip(ws, p1))
-        slack = L * (Wn + (k + 1) * dt + (k + 1) ** 2 * EPS)
+        slack = L * (Wn + (k + 1) * dt + (k + 1) ** 2 * EPS) + qn
         if not (abs(got) <= slack):
             out.append((f"{tag}:exact-legendre", f"n={n} [{a!r},{b!r}]: sum w_i P_{k}(t_i) = {got!r}, should vanish (slack {slack:.3g})")); break
         p0, p1 = p1, [((2 * k + 1) * t * q1 - k * q0) / (k + 1) for t, q1, q0 in zip(ts, p1, p0)]
@@ -283,24 +429,35 @@ def predicates(c, io):
             r1, rw1 = x1[::-1], [-w for w in w1[::-1]]
             mid = n // 2 if n % 2 else -1
             bad = [i for i in range(n) if i != mid and (x2[i] != r1[i] or w2[i] != rw1[i])]
-            if mid >= 0 and (w2[mid] != rw1[mid] or abs((x2[mid] + x1[mid]) - (a + b)) > 8 * EPS * max(abs(a), abs(b)) + abs(b - a) * NEWTON): bad.append(mid)
+            e, q = _units(a, b)
+            sc = lambda x: math.ldexp(x, -e)
+            if mid >= 0 and (w2[mid] != rw1[mid] or not (abs((sc(x2[mid]) + sc(x1[mid])) - (sc(a) + sc(b))) <= 8 * EPS * max(abs(sc(a)), abs(sc(b))) + 4 * q + abs(sc(b) - sc(a)) * NEWTON)): bad.append(mid)
             if bad:
-                out.append(("pair:mirror", f"n={n} [{a!r},{b!r}]: the rule with reversed limits is not the mirror image with negated weights (row {bad[0]}: {x2[bad[0]]!r}, {w2[bad[0]]!r} against {r1[bad[0]]!r}, {rw1[bad[0]]!r})"))
+                out.append(("pair:mirror" + _region(a, b), f"n={n} [{a!r},{b!r}]: the rule with reversed limits is not the mirror image with negated weights (row {bad[0]}: {x2[bad[0]]!r}, {w2[bad[0]]!r} against {r1[bad[0]]!r}, {rw1[bad[0]]!r})"))
     elif op in ("int", "int_default"):
         if io.startswith("EXIT"): return [(f"{op}:exit", "integration terminated the process")]
         if op == "int":
             if len(v) != 3 or not (v[0] == v[1] == v[2] or all(isinstance(x, float) and math.isnan(x) for x in v)):
-                out.append(("int:overloads-agree", f"the three overloads return {v}"))
+                out.append(("int:overloads-agree" + _region(float.fromhex(t[2]), float.fromhex(t[3])), f"n={t[1]} [{float.fromhex(t[2])!r},{float.fromhex(t[3])!r}]: the three overloads (func,a,b,n), (func,rule), (values,rule) return {v}"))
             co = c.info.get("poly")
-            if co is not None and len(v) == 3:
-                n = int(t[1]); a, b = float.fromhex(t[2]), float.fromhex(t[3])
-                M = max(abs(a), abs(b)); L = abs(b - a); hw = 0.5 * (b - a)
-                dt = NEWTON + 2 * EPS * M / abs(hw)
-                ref = sum(Fraction(ck) * (Fraction(b) ** (k + 1) - Fraction(a) ** (k + 1)) / (k + 1) for k, ck in enumerate(co))
-                # moment_checker_sound: |rule - integral| <= sum |c_k| delta_k, plus Horner evaluation and summation rounding
-                slack = sum(abs(ck) * L * M ** k * (W(n) + k * dt * abs(hw) / M + (2 * len(co) + n + 2) * EPS) for k, ck in enumerate(co))
-                if not (abs(Fraction(v[0]) - ref) <= Fraction(slack)):
-                    out.append(("int:exact-polynomial", f"n={n} [{a!r},{b!r}] degree {len(co)-1}: rule gives {v[0]!r}, integral = {float(ref)!r} (slack {slack:.3g})"))
+            if co is not None and len(v) == 3 and isinstance(v[0], float) and not math.isnan(v[0]) and not math.isinf(v[0]):
+                # the polynomial is sum co_k u^k in u = x/2^e with 1 <= max(|a|,|b|)/2^e < 2: everything below is in these units
+                n = int(t[1]); a, b = float.fromhex(t[2]), float.fromhex(t[3]); e = c.info.get("e", 0)
+                te = Fraction(2) ** e
+                fa, fb = Fraction(a) / te, Fraction(b) / te
+                M = float(max(abs(fa), abs(fb))); L = float(abs(fb - fa)); hw = 0.5 * L
+                q = math.ldexp(1.0, -1074 - e) if e < -900 else 0.0
+                ref = sum(Fraction(ck) * (fb ** (k + 1) - fa ** (k + 1)) / (k + 1) for k, ck in enumerate(co))
+                if L > 0.0:
+                    dt = NEWTON + 2 * EPS * M / hw + 2 * q / hw
+                    # moment_checker_sound: |rule - integral| <= sum |c_k| delta_k, plus Horner evaluation and summation rounding
+                    slack = sum(abs(ck) * M ** k * (L * (W(n) + k * dt * hw / M + (2 * len(co) + n + 2) * EPS) + (n + 2) * q) for k, ck in enumerate(co))
+                else: slack = 0.0
+                if not (abs(Fraction(v[0]) / te - ref) <= Fraction(slack)):
+                    out.append(("int:exact-polynomial" + _region(a, b), f"n={n} [{a!r},{b!r}] degree {len(co)-1} in x/2^{e}: the first overload gives {v[0]!r}, integral = {float(ref * te)!r} (slack {slack:.3g} * 2^{e})"))
+            elif co is not None and len(v) == 3:
+                a, b = float.fromhex(t[2]), float.fromhex(t[3])
+                out.append(("int:exact-polynomial" + _region(a, b), f"[{a!r},{b!r}]: the integral of a polynomial with O(1) values is reported as {v[0]!r}"))
     elif op in ("values", "values_rows", "fun_rows"):
         pv = parse_vals(c.line)[1:]
         def rd_list(p):
@@ -328,5 +485,7 @@ def predicates(c, io):
             if not (abs(v[0] - ref) <= (n + 4) * 2 * EPS * sc): out.append((f"{op}:weighted-sum", f"returned {v[0]!r}, sum v_i w_i = {ref!r}"))
         elif all(x == 1.0 for x in vals) and n >= 1:
             a, b = float.fromhex(t[2]), float.fromhex(t[3])
-            if not (abs(v[0] - (b - a)) <= abs(b - a) * (W(n) + (n + 2) * 2 * EPS)): out.append(("values:sum", f"unit values on [{a!r},{b!r}] give {v[0]!r}, b-a = {b-a!r}"))
+            # in halves, so that a length up to 2*DBL_MAX is not formed
+            hv, hl = 0.5 * v[0], 0.5 * b - 0.5 * a
+            if not (abs(hv - hl) <= abs(hl) * (W(n) + (n + 2) * 2 * EPS) + (n + 2) * SUBQ): out.append(("values:sum" + _region(a, b), f"n={n}: unit values on [{a!r},{b!r}] give {v[0]!r}, b-a = {b-a!r}"))
     return out
